@@ -16,6 +16,8 @@ def run(run, model):
     run.do(rec.supported_forms, model)
     run.do(rec.dispatch_closed, model)
     run.do(rec.truth_protocol, model)
+    run.do(rec.none_is_a_value, model)
+    run.do(rec.unknown_stops, model)
     run.do(c09.dispatch_table, model, "C07.default-error")
     run.do(msg.text_and_assembly, model)
     run.do(msg.decorator_regex, model)
@@ -33,3 +35,5 @@ def run(run, model):
     run.minimum("C07.all-trace", 2)
     run.minimum("C07.dispatch-closed", 2)
     run.minimum("C07.truth-protocol", 1)
+    run.minimum("C07.none-is-a-value", 1)
+    run.minimum("C07.unknown-stops", 2)
